@@ -277,8 +277,8 @@ func (z *BigInt) updateInnerFromUint64(val uint64, neg bool) {
 		}
 	}
 
-	// Set or unset the negative sentinel.
-	if neg {
+	// Set or unset the negative sentinel. Zero is never negative.
+	if neg && val != 0 {
 		z._inner = negSentinel
 	} else {
 		z._inner = nil
@@ -710,7 +710,8 @@ func (z *BigInt) MulRange(x, y int64) *BigInt {
 func (z *BigInt) Neg(x *BigInt) *BigInt {
 	if x.isInline() {
 		z._inline = x._inline
-		if x._inner == negSentinel {
+		if x._inner == negSentinel || z._inline == [inlineWords]big.Word{} {
+			// x is negative, or zero (which is never negative).
 			z._inner = nil
 		} else {
 			z._inner = negSentinel
